@@ -15,3 +15,4 @@ import Oas3Model.Props.C15
 import Oas3Model.Props.C13
 import Oas3Model.Props.C14
 import Oas3Model.Props.C16
+import Oas3Model.Props.C18
